@@ -24,6 +24,14 @@ var Root = func() string {
 	return "/verif"
 }()
 
+// McDir is the directory of the checker's Go module (for the secondary builds some checks make).
+func McDir() string {
+	if h := os.Getenv("VERIF_HOME"); h != "" {
+		return filepath.Join(h, "mc")
+	}
+	return filepath.Join(Root, "mc")
+}
+
 type known struct {
 	prop string
 	re   *regexp.Regexp
